@@ -60,6 +60,7 @@ PROP = {'rule': 'rapid-generated histories of 1-5 slo-controller ConfigMap event
                       {'run': 'TestVerifC20HostApp', 'quick': 4000, 'thorough': 10000, 'shards': 6},
                       {'run': 'TestVerifC20Reapply', 'quick': 3000, 'thorough': 10000, 'shards': 6},
                       {'run': 'TestVerifC20Delivered', 'quick': 3000, 'thorough': 10000, 'shards': 6},
+                      {'run': 'TestVerifC20Annotated', 'quick': 3000, 'thorough': 10000, 'shards': 6},
                       {'run': 'TestVerifC20StartupRace', 'quick': 3000, 'thorough': 10000, 'shards': 6}]}],
  'manifest': {'technique': 'property-based testing (rapid): generated ConfigMap histories with reflection-driven strategy generators and a '
                            'text-level reference model of the default < cluster < first-matching-entry layering',
